@@ -499,6 +499,7 @@ fn main() {
 			"announcement_rejected_while_tombstoned",
 			"channel_reannounced_after_removal",
 			"channel_replaced_by_conflicting_announcement",
+			"oversized_message_applied_without_retention",
 			"rgs_applied",
 			"rgs_rejected",
 			"rgs_added_channel",
